@@ -211,6 +211,15 @@ class World(object):
             data = m.subset(op['idx'])
             nb = self.clients[op['c']]['enc'].process(data, wire_template_data=False)
             return {'b': _h(bytes(nb.serialized_bytes)), 'src': _render(m, 'flat_json')}
+        if k == 'cli':
+            # the command line front end in-process on an in-memory file system: it builds its own
+            # decoders/encoders but shares the process-global table cache with every client
+            msg = msgs[op['m']]
+            files = {'m.bufr': bytes.fromhex(msg['hex']), 'm.json': msg['json'].encode('utf-8')}
+            r = streamsim.run_cli(op['argv'], files)
+            out = '\n'.join(_norm_text(x) for x in r['stdout'].split('\n\n'))
+            return {'o': _h(out), 'n': len(out), 'e': _h(r['stderr']), 'w': r['written'],
+                    'x': (r['exc'] or {}).get('type')}
         if k == 'lookup':
             g = self.T.TableGroupCacheManager.get_table_group(
                 tables_root_dir=self.roots[op.get('root', 'bundled')], master_table_version=op['version'])
@@ -312,7 +321,7 @@ core.register('histsim', execute)
 # ----------------------------------------------------------------------------
 # references
 COMPARED = ('decode', 'decode_info', 'decode_bad', 'render', 'query', 'mdquery', 'script', 'wire', 'encode',
-            'encode_bad', 'subset_encode')
+            'encode_bad', 'subset_encode', 'cli')
 
 
 def ref_spec(plan, i, compiled_override=None):
@@ -345,7 +354,10 @@ def ref_spec(plan, i, compiled_override=None):
         mi = op['m']
         o2 = dict(op)
         o2['m'] = 0
-        if k in ('encode', 'encode_bad'):
+        if k == 'cli':
+            dcomp = ecomp = False
+            droot = eroot = 'bundled'
+        elif k in ('encode', 'encode_bad'):
             dcomp, ecomp = False, clients[op['c']].get('compiled') is not None
             droot, eroot = 'bundled', clients[op['c']].get('root', 'bundled')
             o2['c'] = 1
@@ -414,6 +426,24 @@ def gen_queries(rng, entry):
         qs.append('/%06d.A%05d' % (els[0], els[0]))
     qs.append('>031001')
     return qs[:8]
+
+
+def gen_cli_argv(rng, msg):
+    w = bufrgen.walk(bytes.fromhex(msg['hex']))
+    ids = ','.join('%06d' % i for i in w['ids'][:6]) or '001001'
+    q = rng.choice(msg['qs']) if msg['qs'] else '001001'
+    ver = ['--master-table-version', str(w['version'])]
+    return rng.choice([
+        ['decode', 'm.bufr'], ['decode', '-j', 'm.bufr'], ['decode', '-a', 'm.bufr'], ['decode', '-a', '-j', 'm.bufr'],
+        ['decode', '--compiled-template-cache-max', '2', 'm.bufr'], ['decode', '-m', 'm.bufr'],
+        ['info', 'm.bufr'], ['info', '-t', 'm.bufr'], ['info', '-c', 'm.bufr'],
+        ['lookup'] + ver + [ids], ['lookup', '-l'] + ver + [ids.split(',')[0]],
+        ['compile'] + ver + [ids],
+        ['query', q, 'm.bufr'], ['query', '-j', q, 'm.bufr'], ['query', '%n_subsets', 'm.bufr'],
+        ['script', 'a = ${%s}\nprint(a)' % q, 'm.bufr'],
+        ['subset', '0', 'm.bufr', 'out.bufr'], ['split', 'm.bufr'],
+        ['encode', '-j', 'm.json', 'out.bufr'], ['encode', '-j', '--compiled-template-cache-max', '1', 'm.json', 'out.bufr'],
+    ])
 
 
 def prepare_msgs(pool):
@@ -498,7 +528,7 @@ def gen_plan(family, seed, msgs, tier='quick'):
     handles = []    # (op index, msg index, nsub, wire)
     p_fail = rng.choice([0.0, 0.05, 0.15])
     save_bias = 5 if c08 else 0
-    weights = [('decode', 30), ('decode_info', 4), ('decode_bad', 100 * p_fail / 2), ('render', 14), ('query', 8),
+    weights = [('cli', 5), ('decode', 30), ('decode_info', 4), ('decode_bad', 100 * p_fail / 2), ('render', 14), ('query', 8),
                ('mdquery', 3), ('script', 3), ('wire', 3), ('encode', 10), ('encode_bad', 100 * p_fail / 4),
                ('subset_encode', 5), ('lookup', 6), ('restart', 2 + save_bias),
                ('invalidate', 1)]
@@ -541,6 +571,8 @@ def gen_plan(family, seed, msgs, tier='quick'):
         if k == 'decode':
             op = {'op': 'decode', 'c': c, 'm': mi, 'wire': rng.random() < 0.85, 'ive': rng.random() < 0.05}
             handles.append((len(ops), mi, chosen[mi]['nsub'], op['wire']))
+        elif k == 'cli':
+            op = {'op': 'cli', 'm': mi, 'argv': gen_cli_argv(rng, chosen[mi])}
         elif k == 'decode_info':
             op = {'op': 'decode_info', 'c': c, 'm': mi}
         elif k == 'decode_bad':
